@@ -523,6 +523,14 @@ func (db *DB) LTXDir() string {
 // This is useful for recovering from corrupted or missing LTX files.
 // The database file itself is not modified.
 func (db *DB) ResetLocalState(ctx context.Context) error {
+	// Serialize with sync and checkpoint: removing the LTX directory in the
+	// middle of an executor run lets that run publish a cached position whose
+	// file no longer exists, after which every sync fails until a restart.
+	if err := db.lockExec(ctx); err != nil {
+		return err
+	}
+	defer db.execSem.Release(1)
+
 	db.Logger.Info("resetting local litestream state",
 		"meta_path", db.metaPath,
 		"ltx_dir", db.LTXDir())
